@@ -12,10 +12,12 @@ EXPLANATION = (
     "max_frequency() of the same clock; (R3) pairing — every path from set_frequency(a) to a successful return passes "
     "absorb_frequency_steer(same id, a - cur) with cur = get_frequency() of the same clock read before the change, and every path from "
     "step_clock(d) passes absorb_system_clock_offset_change(id, d) for the system clock (index 0) or absorb_offset_change(id, d in "
-    "seconds) otherwise, with d = -offset of that clock; the absorbed filter is what is stored back."
+    "seconds) otherwise, with d = -offset of that clock; the absorbed filter is what is stored back; (R4) the absorb_* operations add "
+    "exactly the applied change to the state entry of that clock and quantity (frequency_index / offset_index) and change nothing else "
+    "(the system-clock variant also advances the filter time by the step)."
 )
 NOT_DECIDED = [
-    "floating-point closeness of the estimate change to the applied change (the absorb_* arithmetic itself) is value-level and not decided",
+    "floating-point rounding of the addition that absorbs the applied change is not decided (R4 decides that the applied change is what is added, to the entry of that clock and quantity)",
     "whether Clock implementations apply exactly the requested frequency/step is outside the workspace",
 ]
 A = 'statime_algo::'
@@ -127,5 +129,43 @@ def r3(ctx):
                   'self.filter = %s' % N(b.rvalue_term(s.data['rv'])), s.where(), sample=N(b.rvalue_term(s.data['rv'])))
 
 
-RULES = [r1, r2, r3]
-FLOORS = {'C43-R1': 12, 'C43-R2': 4, 'C43-R3': 20}
+def r4(ctx):
+    ctx.rule('C43-R4', 'what absorbing does to the estimate: EstimatorState::absorb_frequency_steer adds frequency_change to the state entry at frequency_index of the steered clock, '
+             'absorb_offset_change adds offset_change at offset_index, absorb_system_clock_offset_change adds offset_change.as_seconds() at offset_index and advances the filter time by '
+             'offset_change; nothing else is written; LinkFilter::absorb_* delegate to the estimator method of the same name with the same arguments')
+    P = ctx.P
+    ES = A + 'estimator::EstimatorState::'
+    info = r'\(Result::branch\(EstimatorState::get_clock_info\(self, steered_clock\)\) as Continue\)\.0'
+    for name, idx, arg, val in (('absorb_frequency_steer', 'frequency_index', 'frequency_change', 'frequency_change'),
+                                ('absorb_offset_change', 'offset_index', 'offset_change', 'offset_change'),
+                                ('absorb_system_clock_offset_change', 'offset_index', 'offset_change', 'Duration::as_seconds(offset_change)')):
+        b = P.body(ES + name)
+        params = [l.get('name') for l in b.locals[1:4]]
+        ctx.check('%s|params' % name, params == ['self', 'steered_clock', arg], 'parameters %s' % params, sample=params)
+        dw = deref_writes(b)
+        ctx.check('%s|one-entry-written' % name, len(dw) == 1, 'state entries written: %d' % len(dw), sample=len(dw))
+        for s, t, v in dw:
+            want_t = r'^Matrix::index_mut\(self\.state, \(ClockInfo::%s\(%s\), 0\)\)$' % (idx, info)
+            ctx.check('%s|entry' % name, re.match(want_t, t) is not None, 'writes %s' % t[:160], s.where(), sample=t[:120])
+            ctx.check('%s|adds-applied-change' % name, v == '(%s + %s)' % (t, val), 'new value %s' % v[-120:], s.where(), sample=v[-80:])
+        other = [f for f in ('uncertainty', 'clock_info', 'external_clocks', 'link_info') if b.field_writes(f, r'estimator::EstimatorState')]
+        ctx.check('%s|nothing-else-written' % name, not other, 'also writes %s' % other, sample=other)
+        tw = b.calls(r'AddAssign::add_assign$')
+        if name == 'absorb_system_clock_offset_change':
+            ok = len(tw) == 1 and [S(a) for a in b.call_args(tw[0])] == ['self.time', 'offset_change']
+            ctx.check('%s|time-advanced' % name, ok, 'time update: %s' % [[S(a) for a in b.call_args(c)] for c in tw], sample=len(tw))
+        else:
+            ctx.check('%s|time-untouched' % name, not tw and not [s for s in b.field_writes('time', r'estimator::EstimatorState')], 'filter time is modified', sample=len(tw))
+        oks = [v for _, v in ret_assigns(b) if v.startswith('Result::Ok')]
+        ctx.check('%s|returns-self' % name, oks == ['Result::Ok{0: self}'], 'returns %s' % oks, sample=oks)
+        lf = P.body(A + 'filter::LinkFilter::' + name)
+        cs = lf.calls(r'EstimatorState::absorb_\w+$')
+        ok = len(cs) == 1 and short_name(lf.callee(cs[0])['def']) == 'EstimatorState::' + name and [N(a) for a in lf.call_args(cs[0])] == ['self.estimation_state', 'steered_clock', arg]
+        ctx.check('LinkFilter::%s|delegates' % name, ok, 'calls %s' % [(short_name(lf.callee(c)['def']), [N(a) for a in lf.call_args(c)]) for c in cs], sample=ok)
+        ws = [written_value(lf, s) for s in lf.field_writes('estimation_state', r'filter::LinkFilter') if s.kind == 'assign']
+        ctx.check('LinkFilter::%s|stores-result' % name, len(ws) == 1 and re.match(r'^\(Result::branch\(EstimatorState::%s\(self\.estimation_state, steered_clock, %s\)\) as Continue\)\.0$' % (name, arg), ws[0]) is not None,
+                  'estimation_state = %s' % ws, sample=len(ws))
+
+
+RULES = [r1, r2, r3, r4]
+FLOORS = {'C43-R1': 12, 'C43-R2': 4, 'C43-R3': 20, 'C43-R4': 24}
